@@ -60,7 +60,7 @@ def embed(env, Q, inner, pos):
         if any(excs):
             raise core.MachineryError(f"insert-select program raised: {excs}")
         return q
-    other = Q.from_(o).select(*[o.field("k%d" % i) for i in range(len(inner._selects))])  # same arity as the inner query
+    other = Q.from_(o).select(*[o.field("k%d" % i) for i in range(nsel(inner))])  # same arity as the inner query
     if pos == "setop-base":
         return inner.union(other)
     if pos == "setop-operand":
@@ -68,6 +68,16 @@ def embed(env, Q, inner, pos):
     if pos == "create-as":
         return Q.create_table("nt").as_select(inner)
     raise core.MachineryError(pos)
+
+
+class NotVerbatim(Exception):
+    pass
+
+
+def nsel(q):
+    """number of select items (a set operation answers every unknown attribute with a Field: look in its dict)"""
+    sel = q.__dict__.get("_selects")
+    return len(sel) if sel else 1
 
 
 def find(hay, needle):
@@ -91,16 +101,22 @@ def observe(Q, d, h):
         return lexer.slim(lexer.lex(s, ld))
 
     def mk(hist):
-        q, excs = env.run(hist)
+        tail = hist[-1] if hist and hist[-1]["m"] == "union_with" else None
+        q, excs = env.run(hist[:-1] if tail else hist)
         if any(excs):
             raise core.MachineryError(f"inner program raised: {excs}")
+        if tail:
+            t2 = env.src[tail["src"]]
+            q = q.union_all(Q.from_(t2).select(t2.a))
+            if tail.get("orderby"):
+                q = q.orderby(env.P.Field("a")).limit(3)
         q = q.as_(alias) if alias else q
         q._c10_hist = hist
         return q
 
     inner = mk(h["hist"])
-    arity = len(inner._selects) or 1
-    benign = mk([{"m": "from_", "src": "T2"}, {"m": "select", "terms": [{"k": "fld", "src": "T2", "n": "z%d" % i} for i in range(arity)]}])
+    arity = nsel(inner)
+    benign = mk([{"m": "from_", "src": "T2"}, {"m": "select", "terms": [{"k": "fld", "src": "T2", "n": "z%d" % i} for i in range(arity)]}] + ([dict(h["hist"][-1], src="T5")] if h["hist"][-1]["m"] == "union_with" else []))  # (the twin of a set operation is a set operation: WITH RECURSIVE is chosen by the kind of the body)
     if pos == "insert-select" or h["clause"].startswith("dml-"):
         inner_alone = str(inner)
         benign_alone = str(benign)
@@ -119,7 +135,8 @@ def observe(Q, d, h):
     to, tb, ti, tbi = lexs(render(outer)), lexs(render(outer_b)), lexs(inner_alone), lexs(benign_alone)
     hits = find(tb, tbi)
     if len(hits) != 1:
-        raise core.MachineryError(f"benign inner occurs {len(hits)} times in its outer statement ({pos}/{d}): {render(outer_b)}")
+        # the plainest inner query of this shape is itself not embedded verbatim (or not exactly once): that is the property failing on the twin
+        raise NotVerbatim(f"the benign inner query occurs {len(hits)} times in its outer statement", render(outer_b), benign_alone)
     j = hits[0]
     pre, suf = tb[:j], tb[j + len(tbi):]
     return {"d": d, "pos": pos, "outer": to, "pre": pre, "suf": suf, "inner": ti, "alias": alias,
@@ -151,11 +168,18 @@ def run(tier: str) -> int:
                 continue  # WITH legitimately precedes INSERT INTO: not an embedding of the text after a prefix
             if h["clause"].startswith("dml-") and d != "postgresql":
                 continue  # RETURNING is PostgreSQL's
+            if h["clause"].startswith("setop-") and h["pos"] in ("insert-select", "setop-base", "setop-operand", "create-as"):
+                continue  # (a set operation is embedded as a subquery; chaining set operations is not an embedding, as_select() takes a builder only)
             try:
                 ev = observe(Q, d, h)
-            except core.MachineryError:
+            except NotVerbatim as ex:
                 if h.get("pos2"):
                     continue  # (a benign twin that is not unique in a two-level statement: the pair is not judged)
+                rep.discrepancy([[h["pos"], "benign-twin-not-verbatim", "setop" if h["clause"].startswith("setop-") else "select"]],
+                                {"dialect": d, "position": h["pos"], "outer": ex.args[1], "stand_alone": ex.args[2], "what": ex.args[0]},
+                                what="even the plainest inner query of this shape is not embedded as its stand-alone text")
+                continue
+            except core.MachineryError:
                 raise
             except Exception as ex:  # noqa
                 rep.discrepancy([[h["pos"], h["clause"], "raises:" + type(ex).__name__]], {"dialect": d, "program": h}, what="embedding or rendering raises")
